@@ -1599,7 +1599,10 @@ func (d *decoderCborBytes) kInterfaceNaked(f *decFnInfo) (rvn reflect.Value) {
 		if bytes == nil {
 
 			if bfn == nil {
+
+				d.depthIncr()
 				d.decode(&re.Value)
+				d.depthDecr()
 				rvn = rv4iptr(&re).Elem()
 			} else if bfn.ext == SelfExt {
 				rvn = rvZeroAddrK(bfn.rt, bfn.rt.Kind())
@@ -3738,6 +3741,7 @@ func (d *cborDecDriverBytes) DecodeNaked() {
 
 	n := d.d.naked()
 	var decodeFurther bool
+TOP:
 	switch d.bd >> 5 {
 	case cborMajorUint:
 		if d.h.SignedInteger {
@@ -3785,10 +3789,13 @@ func (d *cborDecDriverBytes) DecodeNaked() {
 				n.f = d.decTagBigFloatAsFloat(false)
 				n.v = valueTypeFloat
 			case 55799:
-				d.DecodeNaked()
+
+				d.readNextBd()
+				goto TOP
 			default:
 				if d.h.SkipUnexpectedTags {
-					d.DecodeNaked()
+					d.readNextBd()
+					goto TOP
 				}
 
 			}
@@ -5592,7 +5599,10 @@ func (d *decoderCborIO) kInterfaceNaked(f *decFnInfo) (rvn reflect.Value) {
 		if bytes == nil {
 
 			if bfn == nil {
+
+				d.depthIncr()
 				d.decode(&re.Value)
+				d.depthDecr()
 				rvn = rv4iptr(&re).Elem()
 			} else if bfn.ext == SelfExt {
 				rvn = rvZeroAddrK(bfn.rt, bfn.rt.Kind())
@@ -7731,6 +7741,7 @@ func (d *cborDecDriverIO) DecodeNaked() {
 
 	n := d.d.naked()
 	var decodeFurther bool
+TOP:
 	switch d.bd >> 5 {
 	case cborMajorUint:
 		if d.h.SignedInteger {
@@ -7778,10 +7789,13 @@ func (d *cborDecDriverIO) DecodeNaked() {
 				n.f = d.decTagBigFloatAsFloat(false)
 				n.v = valueTypeFloat
 			case 55799:
-				d.DecodeNaked()
+
+				d.readNextBd()
+				goto TOP
 			default:
 				if d.h.SkipUnexpectedTags {
-					d.DecodeNaked()
+					d.readNextBd()
+					goto TOP
 				}
 
 			}
